@@ -55,9 +55,6 @@ use rayon::prelude::*;
 
 use super::EntityId;
 
-/// Maximum number of re-execution attempts before giving up.
-const MAX_REEXECUTION_ROUNDS: usize = 10;
-
 /// Minimum batch size to consider parallel execution (otherwise sequential is faster).
 const MIN_BATCH_SIZE_FOR_PARALLEL: usize = 4;
 
@@ -350,60 +347,34 @@ impl ParallelExecutor {
             return self.execute_sequential(batch, execute_fn);
         }
 
-        // Phase 3: Re-execution of conflicting transactions
+        // Phase 3: Re-execution of invalidated transactions, in batch order.
+        //
+        // A transaction is re-executed once every earlier transaction is final, so it
+        // reads exactly what sequential execution would read and needs no further
+        // validation.
         let total_reexecutions = AtomicUsize::new(0);
 
-        for round in 0..MAX_REEXECUTION_ROUNDS {
-            if invalid_indices.is_empty() {
-                break;
-            }
+        for idx in invalid_indices {
+            let mut result = results[idx].lock();
 
-            // Re-execute invalid transactions
-            let still_invalid: Vec<usize> = self.pool.install(|| {
-                invalid_indices
-                    .par_iter()
-                    .filter_map(|&idx| {
-                        let mut result = results[idx].lock();
+            // Clear previous state
+            result.read_set.clear();
+            result.write_set.clear();
+            result.dependencies.clear();
 
-                        // Clear previous state
-                        result.read_set.clear();
-                        result.write_set.clear();
-                        result.dependencies.clear();
+            // Re-execute
+            execute_fn(idx, &batch.operations[idx], &mut result);
+            result.mark_reexecuted();
+            total_reexecutions.fetch_add(1, Ordering::Relaxed);
 
-                        // Re-execute
-                        execute_fn(idx, &batch.operations[idx], &mut result);
-                        result.mark_reexecuted();
-                        total_reexecutions.fetch_add(1, Ordering::Relaxed);
-
-                        // Collect entities for re-validation
-                        let read_entities: Vec<EntityId> =
-                            result.read_set.iter().map(|(entity, _)| *entity).collect();
-
-                        // Re-validate
-                        for entity in read_entities {
-                            if let Some(writer) = write_tracker.was_written_by_earlier(&entity, idx)
-                            {
-                                result.mark_needs_revalidation();
-                                result.dependencies.push(writer);
-                                return Some(idx);
-                            }
-                        }
-
-                        result.status = ExecutionStatus::Success;
-                        None
-                    })
-                    .collect()
-            });
-
-            invalid_indices = still_invalid;
-
-            if round == MAX_REEXECUTION_ROUNDS - 1 && !invalid_indices.is_empty() {
-                // Max rounds reached, mark remaining as failed
-                for idx in &invalid_indices {
-                    let mut result = results[*idx].lock();
-                    result.mark_failed("Max re-execution rounds reached".to_string());
+            let read_entities: Vec<EntityId> =
+                result.read_set.iter().map(|(entity, _)| *entity).collect();
+            for entity in read_entities {
+                if let Some(writer) = write_tracker.was_written_by_earlier(&entity, idx) {
+                    result.dependencies.push(writer);
                 }
             }
+            result.status = ExecutionStatus::Success;
         }
 
         // Phase 4: Collect results
